@@ -320,6 +320,15 @@ class Recorder:
             n0 = rec.ncall
             u = _l(x)
             xn0 = int(self_.Xn)
+            if rec.phase == "final":
+                # the incumbent the final re-sampling starts from (chosen iterate BEFORE fval / fsd are overwritten by the mean / SEM) and the
+                # SD of the last logged row (the code's supplement of ysd_vec): inputs / outcomes of the tail's translator validation (comp_final)
+                try:
+                    sdl = _f(self_.S[self_.Xn]) if getattr(self_, "noise_flag", False) and getattr(self_, "S", None) is not None else None
+                except Exception:
+                    sdl = None
+                rec.ev.append(["final_sel", dict(u=_l(b.u), yval=_f(getattr(b, "yval", None)), fval=_f(getattr(b, "fval", None)),
+                                                 fsd=_f(getattr(b, "fsd", None)), sdlast=sdl, arg=u)])
             try:
                 r = orig_call(self_, x, record_duplicate_data)
             except BaseException as ex:
